@@ -1564,9 +1564,14 @@ chkpnta(void)
 					rc = -1;
 					break;
 				}
-				/* reassign */
+				/* reassign, the trie's nodes live in that array,
+				 * link them afresh where they are now */
 				snds = nup;
 				zsnds = nuz;
+				seen_init(&sntr);
+				for (size_t j = 0U; j < nsnds; j++) {
+					add_seen(&sntr, snds + j);
+				}
 			}
 			snds[nsnds] = (ndnd_t){.key = u, .fd = fd};
 			add_seen(&sntr, snds + nsnds++);
